@@ -8,6 +8,7 @@ import (
 	"context"
 	"encoding/hex"
 	"encoding/json"
+	"errors"
 	"math/big"
 	"reflect"
 	"sort"
@@ -124,6 +125,44 @@ type J9 struct {
 	BS []Blob `serix:"bs,lenPrefix=uint8,omitempty"`
 }
 
+// types that decode themselves (serix.DeserializableJSON): CJ through a pointer receiver from a string (a registered
+// syntactic validator refuses "bad"), CV through a value receiver from a number
+type CJ struct{ S string }
+
+func (c *CJ) DecodeJSON(v any) error {
+	s, ok := v.(string)
+	if !ok {
+		return errors.New("CJ wants a string")
+	}
+	c.S = s
+
+	return nil
+}
+
+func (c CJ) EncodeJSON() (any, error) { return c.S, nil }
+
+type CV uint8
+
+func (c CV) DecodeJSON(v any) error {
+	if _, ok := v.(float64); !ok {
+		return errors.New("CV wants a number")
+	}
+
+	return nil
+}
+
+func (c CV) EncodeJSON() (any, error) { return float64(c), nil }
+
+type J10 struct {
+	A  CJ            `serix:"a"`
+	P  *CJ           `serix:"p"`
+	O  *CJ           `serix:"o,optional"`
+	L  []CJ          `serix:"l,lenPrefix=uint8"`
+	LP []*CJ         `serix:"lp,lenPrefix=uint8,omitempty"`
+	M  map[string]CJ `serix:"m,lenPrefix=uint8,omitempty"`
+	V  CV            `serix:"v"`
+}
+
 func key(s string) string { return "\"" + hex.EncodeToString([]byte(s)) }
 
 func fld(k, flag, ty string) string { return key(k) + " " + flag + " " + ty }
@@ -145,6 +184,7 @@ var (
 	sJ6     = st("-", fld("sh", "r", sShape), fld("shs", "r", "sl 0 0 "+sShape), fld("osh", "o", sShape))
 	sJ7     = st("-", fld("p", "r", "pharr "+key("id")))
 	sJ8     = st("-", fld("pu", "o", "uns"), fld("an", "o", "ifu"), fld("c", "o", "uns"))
+	sJ10    = st("-", fld("a", "r", "cstr"), fld("p", "r", "cstr"), fld("o", "o", "cstr"), fld("l", "r", "sl 0 0 cstr"), fld("lp", "o", "sl 0 0 cstr"), fld("m", "o", "map 0 0 str 0 0 cstr"), fld("v", "r", "cnum"))
 	sJ9     = st("-", fld("v", "r", "pharr "+key("v")), fld("bl", "r", "ohex "+key("bl")+" 1 3"), fld("tg", "o", "ohex "+key("tg")+" 0 0"), fld("pl", "r", "hex 1 3"),
 		fld("vs", "r", "sl 0 0 pharr "+key("id")), fld("bs", "o", "sl 0 0 ohex "+key("data")+" 1 3"))
 )
@@ -163,6 +203,13 @@ var jsonAPI = func() *serix.API {
 	must(api.RegisterTypeSettings(Square{}, serix.TypeSettings{}.WithObjectType(uint8(2))))
 	must(api.RegisterInterfaceObjects((*Shape)(nil), Circle{}, Square{}))
 	must(api.RegisterTypeSettings(ID4{}, serix.TypeSettings{}.WithObjectType(uint8(9)).WithFieldKey("id")))
+	must(api.RegisterValidator(CJ{}, func(_ context.Context, c CJ) error {
+		if c.S == "bad" {
+			return errors.New("bad CJ")
+		}
+
+		return nil
+	}))
 	must(api.RegisterTypeSettings(Blob{}, serix.TypeSettings{}.WithObjectType(uint8(11)).WithLengthPrefixType(serix.LengthPrefixTypeAsByte).WithMinLen(1).WithMaxLen(3)))
 	must(api.RegisterTypeSettings(Tag{}, serix.TypeSettings{}.WithObjectType(uint32(70000)).WithFieldKey("tag").WithLengthPrefixType(serix.LengthPrefixTypeAsByte)))
 
@@ -278,6 +325,23 @@ var jtargets = []jtarget{
 	}},
 	{"J8", sJ8, func() any { return &J8{} }, func(rng *hx.Rng) any {
 		return map[string]any{}
+	}},
+	{"J10", sJ10, func() any { return &J10{} }, func(rng *hx.Rng) any {
+		v := &J10{A: CJ{rstr(rng, 0, 4)}, P: &CJ{rstr(rng, 0, 4)}, L: []CJ{}, V: CV(rng.U64())}
+		if rng.Bool() {
+			v.O = &CJ{rstr(rng, 1, 3)}
+		}
+		for i := rng.Range(0, 2); i > 0; i-- {
+			v.L = append(v.L, CJ{rstr(rng, 0, 3)})
+		}
+		for i := rng.Range(0, 2); i > 0; i-- {
+			v.LP = append(v.LP, &CJ{rstr(rng, 0, 3)})
+		}
+		if rng.Bool() {
+			v.M = map[string]CJ{rstr(rng, 0, 3): {rstr(rng, 0, 3)}}
+		}
+
+		return v
 	}},
 	{"J9", sJ9, func() any { return &J9{} }, func(rng *hx.Rng) any {
 		v := &J9{BL: Blob(rbytes(rng, 1, 3)), PL: Plain(rbytes(rng, 1, 3)), VS: []ID4{}}
@@ -404,7 +468,7 @@ func parseTree(toks []string) (any, []string) {
 func pool() []any {
 	return []any{
 		nil, true, false, float64(7), 3.5, float64(-1), float64(1), float64(2), float64(300), float64(70000),
-		"", "abc", "12", "-5", "+5", "1.5", "0x0102", "0x1", "0x", "0xzz", "0x00", "0X0A", "18446744073709551615", "18446744073709551616",
+		"", "abc", "bad", "12", "-5", "+5", "1.5", "0x0102", "0x1", "0x", "0xzz", "0x00", "0X0A", "18446744073709551615", "18446744073709551616",
 		"9223372036854775807", "9223372036854775808", "-9223372036854775808", "-9223372036854775809", "1e3", "3.5e38", "1e400", "inf", "-Infinity", "NaN", "1_0", "_1", "1_", "1__0", "1_.5", "1e1_0", ".5", "5.", "e5", "1e", "1.5e-3", "--1", "é",
 		"0x" + strings.Repeat("ab", 32), "0x1" + strings.Repeat("ab", 32), "a very long string, longer than eight",
 		[]any{}, []any{float64(1)}, []any{"x"}, []any{float64(1), float64(2), float64(3)}, []any{map[string]any{}}, []any{float64(1), float64(2), float64(3), float64(4)},
